@@ -7,7 +7,7 @@ tot_v = tot_a = 0
 seen_v = set(); seen_a = set()
 for f in sorted(glob.glob(os.path.join(HERE, '..', 'build', 'verus', '*.rs.meta.json'))):
     u = os.path.basename(f)[:-len('.rs.meta.json')]
-    if u.endswith('__canary'):
+    if u.endswith('__canary') or not os.path.exists(os.path.join(HERE, '..', 'units', u + '.vrs')) or u.startswith(('inc_', 'prelude_')):
         continue
     m = json.load(open(f))
     by = collections.OrderedDict()
